@@ -8,6 +8,6 @@ CONSTANTS
   SeqFmts = {0, 1, 2, 3}
   PredefRev = 1
 INVARIANTS TypeOK Monotone MaxFormatSound
-PROPERTIES RefusedAddsChangeNothing RevisionsOnlyGrow ClashRefused OldRefused
+PROPERTIES TRevisionsOnlyGrow TRefusedChangeNothing
 POSTCONDITION Accepted
 CHECK_DEADLOCK FALSE
